@@ -37,6 +37,10 @@ CONSTANTS
   FixDel = TRUE
   FixInit = TRUE
   FixLate = TRUE
+  CloseCheckOutside = FALSE
+  StopDeletes = FALSE
+  Stalls = FALSE
+  Linger = FALSE
   PreAcked = FALSE
   Bursts = TRUE
   Sync = TRUE
